@@ -47,6 +47,29 @@ Definition g_dir (g : graph) (scid : Z) (two_to_one : bool) : option upd_info :=
 Definition g_nann (g : graph) (nid : Z) : option nann :=
   n ← g_nodes g !! nid; n_ann n.
 
+(** ** Exact acceptance condition ([upd_guards]) and effect ([upd_result]) of a channel_update *)
+Definition upd_guards (cf : cfg) (g : graph) (via : bool) (sg : option (option Z)) (m : chan_upd)
+    (now : Z) (c : chan) : Prop :=
+  g_chans g !! cu_scid m = Some c ∧
+  (via = true → upd_dont_forward m = false) ∧
+  cu_chain m = cfg_chain cf ∧
+  (cfg_time_check cf = true →
+     now - STALE_CHANNEL_UPDATE_AGE_LIMIT_SECS ≤ cu_ts m ≤ now + 60 * 60 * 24) ∧
+  cu_hmax m ≤ MAX_VALUE_MSAT ∧
+  (∀ cap, c_cap c = Some cap → cap ≤ MAX_VALUE_MSAT / 1000 ∧ cu_hmax m ≤ cap * 1000) ∧
+  (∀ old, chan_dir c (dir_is_two_to_one m) = Some old → ui_ts old < cu_ts m) ∧
+  (∀ s, sg = Some s → pk_ok cf (dir_node c (dir_is_two_to_one m)) = true
+                      ∧ s = Some (dir_node c (dir_is_two_to_one m))).
+
+Definition upd_result (g : graph) (sg : option (option Z)) (m : chan_upd) (c : chan) : graph :=
+  Graph (<[cu_scid m := set_dir c (dir_is_two_to_one m) (Some (upd_info_of m (is_some_b sg)))]>
+           (g_chans g))
+        (g_nodes g) (g_rmc g) (g_rmn g).
+
+(** the time range in which [remove_stale_channels_and_tracking_with_time] does anything *)
+Definition prune_active (now : Z) : Prop :=
+  STALE_CHANNEL_UPDATE_AGE_LIMIT_SECS ≤ now ≤ 2 ^ 32 - 1.
+
 (** ** Authenticity: every piece of information in the graph is backed by a delivered message
     whose signatures verify under the announced keys (when verification was requested, i.e. the
     signed entry points were used) *)
